@@ -23,12 +23,21 @@ Proof.
   intros. apply N.eqb_eq. revert b H. apply forall_byte. vm_compute. reflexivity.
 Qed.
 
-Ltac dcmp :=
-  repeat match goal with
-  | |- context [N.ltb ?a ?b] => destruct (N.ltb_spec a b)
-  | |- context [N.leb ?a ?b] => destruct (N.leb_spec a b)
-  | |- context [N.eqb ?a ?b] => destruct (N.eqb_spec a b)
+(* destruct the condition of an [if] (comparisons on N, possibly under && / ||), simplify, prune by lia *)
+Ltac dcond c :=
+  match c with
+  | andb ?x ?y => dcond x
+  | orb ?x ?y => dcond x
+  | negb ?x => dcond x
+  | N.ltb ?a ?b => destruct (N.ltb_spec a b)
+  | N.leb ?a ?b => destruct (N.leb_spec a b)
+  | N.eqb ?a ?b => destruct (N.eqb_spec a b)
   end.
+Ltac dif1 :=
+  match goal with
+  | |- context [if ?c then _ else _] => dcond c; cbn [andb orb negb]; cbv iota; try (exfalso; lia)
+  end.
+Ltac dif := repeat dif1.
 
 (* the decision taken by encodeString after DecodeRuneInString *)
 Definition go_bad (s : list N) : bool :=
@@ -54,10 +63,8 @@ Lemma cls_cases b : 0x80 <= b -> b < 256 ->
   \/ (b = 0xF0 /\ cls b = s5) \/ (0xF1 <= b <= 0xF3 /\ cls b = s6) \/ (b = 0xF4 /\ cls b = s7)
   \/ (0xF5 <= b /\ cls b = xx).
 Proof.
-  intros. unfold cls. dcmp; try lia; intuition lia.
+  intros. unfold cls. dif; intuition lia.
 Qed.
-
-Ltac fin := cbn -[N.ltb N.leb N.eqb N.land N.lor N.shiftl]; try lia; try reflexivity; try (repeat split; lia).
 
 Lemma decode_agree b r : 0x80 <= b -> b < 256 ->
   match utf8_step (b :: r) with
@@ -66,12 +73,14 @@ Lemma decode_agree b r : 0x80 <= b -> b < 256 ->
   end.
 Proof.
   intros Hlo Hhi. unfold decode_rune. rewrite (first_cls b Hhi).
-  unfold utf8_step, inr, cont, locb, hicb.
+  unfold utf8_step, cont, inr, locb, hicb, rerr.
   destruct (cls_cases b Hlo Hhi) as [[H E]|[[H E]|[[H E]|[[H E]|[[H E]|[[H E]|[[H E]|[[H E]|[H E]]]]]]]]];
-    rewrite E; comp_consts; cbv iota beta zeta;
-    try (destruct r as [|b1 [|b2 [|b3 r]]]); dcmp; fin; dcmp; fin.
+    rewrite E; comp_consts; cbv iota beta zeta.
+  all: try (destruct r as [|b1 [|b2 [|b3 r]]]).
+  all: cbn [length Nat.ltb Nat.leb].
+  all: dif.
+  all: cbn [snd length]; try reflexivity; try (repeat split; lia).
 Qed.
-
 Lemma go_bad_spec b r : 0x80 <= b -> b < 256 ->
   match utf8_step (b :: r) with
   | None => go_bad (b :: r) = true /\ snd (decode_rune (b :: r)) = 1%nat
@@ -81,6 +90,39 @@ Proof.
   intros Hlo Hhi. pose proof (decode_agree b r Hlo Hhi) as H. unfold go_bad.
   destruct (utf8_step (b :: r)) as [[cp n]|].
   - destruct (decode_rune (b :: r)) as [c size]. cbn [snd] in *. destruct H as (-> & H2 & H3).
-    split; [|auto]. destruct n as [|[|n]]; try lia. rewrite andb_false_iff. right. reflexivity.
+    split; [|auto]. destruct n as [|[|n]]; lia.
   - rewrite H. split; reflexivity.
+Qed.
+
+(* ---------- utf8_step against utf8_enc ---------- *)
+Ltac inv_some :=
+  match goal with
+  | H : Some _ = Some _ |- _ => inversion H; subst; clear H
+  | H : None = Some _ |- _ => discriminate H
+  end.
+
+Lemma step_sound s cp n : utf8_step s = Some (cp, n) ->
+  scalar cp /\ firstn n s = utf8_enc cp /\ n = length (utf8_enc cp).
+Proof.
+  unfold utf8_step, cont, inr. destruct s as [|b0 r]; [discriminate|].
+  destruct (N.ltb_spec b0 0x80).
+  { intros E; inv_some. unfold scalar, scalarb, utf8_enc.
+    replace (cp <? 128) with true by (symmetry; apply N.ltb_lt; lia).
+    replace (cp <? 0xD800) with true by (symmetry; apply N.ltb_lt; lia). auto. }
+  destruct r as [|b1 [|b2 [|b3 r]]]; dif; intros E; try inv_some.
+  all: unfold scalar, scalarb, utf8_enc; dif; cbn [firstn length].
+  all: try (exfalso; lia).
+  all: split; [lia|split; [|reflexivity]].
+  all: repeat (f_equal; try lia).
+Qed.
+
+Lemma step_complete cp r : scalar cp -> utf8_step (utf8_enc cp ++ r) = Some (cp, length (utf8_enc cp)).
+Proof.
+  unfold scalar, scalarb, utf8_enc. intros Hs.
+  assert (Hc : cp < 0xD800 \/ (0xE000 <= cp /\ cp < 0x110000)) by lia. clear Hs.
+  dif; cbn [app length]; unfold utf8_step, cont, inr.
+  - dif. reflexivity.
+  - dif. all: try (exfalso; lia). all: do 2 f_equal; lia.
+  - dif. all: try (exfalso; lia). all: do 2 f_equal; lia.
+  - dif. all: try (exfalso; lia). all: do 2 f_equal; lia.
 Qed.
